@@ -67,9 +67,13 @@ def build_db(ft, lemmas, goal_variant):
         st.append(('block', [('d', ('ph0', 'ph2')),
                              ('p', 'l6', (TH, IMP(ph0, IMP(ph1, ph0))), mmref.encode_compressed(t, mand(['ph0', 'ph1']), 'none'))]))
     if 'L7' in lemmas:
-        # the proof goes through a DUMMY variable (ph2 occurs in no statement of the lemma): its floating hypothesis is not
+        # the proof goes through a DUMMY variable (ph3 occurs in no statement of the lemma): its floating hypothesis is not
         # mandatory, so it is named in the proof's label list and the slice has to declare the variable for it
-        ph2 = V('ph2')
+        # ph3 is used by no axiom either, so nothing but the label list brings it into the slice
+        st.append(('v', ('ph3',)))
+        st.append(('f', 'ph3-is-pattern', '#Pattern', 'ph3'))
+        _, fr = frames_of(st)
+        ph2 = V('ph3')
         x = IMP(ph2, ph0)
         t = mmgen.apply('proof-rule-mp', fr, {'ph0': IMP(ph0, x), 'ph1': IMP(ph0, ph0)}, [
             mmgen.apply('proof-rule-mp', fr, {'ph0': IMP(ph0, IMP(x, ph0)), 'ph1': IMP(IMP(ph0, x), IMP(ph0, ph0))}, [
@@ -248,6 +252,53 @@ def shipped_chunk(name):
     return {'evals': 1, 'viol': v}
 
 
+# ------------------------------------------------------------------------------------------------
+# histories: what was parsed before in the same process must not matter
+# ------------------------------------------------------------------------------------------------
+
+def history_texts():
+    """four small databases whose token sets collide: a name that is a constant in one is a variable in another"""
+    ft = mmgen.Features()
+    t0 = mmref.write_db(build_db(ft, ('L1', 'L2'), 'both'))
+    t2 = mmref.write_db(build_db(mmgen.Features(notation=True), ('L2', 'L3', 'L7'), 'dummy'))
+
+    def swap(text, a, b):
+        toks = text.split(' ')
+        return ' '.join(x.replace(a, '\0').replace(b, a).replace('\0', b) for x in toks)
+    return [t0, swap(t0, 'c0', 'ph0'), t2, swap(t2, 'c1', 'ph1')]
+
+
+def history_worker(seq):
+    """one fresh process: parse / print / slice the databases of `seq` one after the other; a digest per position"""
+    import hashlib
+    from . import bridge  # noqa: F401
+    from proof_generation.metamath import metamath_extract_slice as X
+    from proof_generation.metamath.ast import Encoder
+    from proof_generation.metamath.parser import parse_database
+    texts = history_texts()
+    out = []
+    for i in seq:
+        try:
+            db = parse_database(texts[i])
+            printed = Encoder.encode_string(db)
+            deps = X.dependency_graph(db)
+            include = X.transitive_closure(deps, ['goal'])
+            sl = [(l, Encoder.encode_string(d)) for l, d in X.slice_database(db, X.syntax_dependencies(db), include=set(include), exclude=set())]
+            blob = repr(db) + '\0' + printed + '\0' + repr(sl)
+            out.append(hashlib.sha256(blob.encode()).hexdigest()[:16])
+        except Exception as ex:  # noqa: BLE001
+            out.append(f'raised {type(ex).__name__}: {str(ex)[:80]}')
+    print(json.dumps(out))
+
+
+def run_history(seq):
+    import subprocess
+    r = subprocess.run([sys.executable, '-m', 'mc.c17', '--history', json.dumps(list(seq))], capture_output=True, text=True, cwd=str(common.VERIF))
+    if r.returncode != 0:
+        return seq, None, r.stderr[-300:]
+    return seq, json.loads(r.stdout.strip().splitlines()[-1]), None
+
+
 def replay(path: str) -> int:
     v = json.loads(open(path).read())
     print(json.dumps(v['signature']), '\n', v.get('what'))
@@ -264,9 +315,29 @@ def main(argv=None) -> int:
     argv = argv or []
     if argv and argv[0] == '--replay':
         return replay(argv[1])
+    if argv and argv[0] == '--history':
+        history_worker(json.loads(argv[1]))
+        return 0
     chk = common.Check(PROP, 'exploration')
     thorough = chk.tier == 'thorough'
     agg: dict = {}
+    # every sequence of <=2/3 of the colliding databases, each sequence in a fresh process
+    nt = len(history_texts())
+    seqs = [t for k in range(1, (3 if thorough else 2) + 1) for t in itertools.product(range(nt), repeat=k)]
+    alone = {}
+    results = par.pmap(run_history, seqs)
+    for seq, data, err in results:
+        if len(seq) == 1 and data is not None:
+            alone[seq[0]] = data[0]
+    for seq, data, err in results:
+        agg['history_runs'] = agg.get('history_runs', 0) + 1
+        if data is None:
+            chk.violation({'kind': 'history_worker_crash'}, {'sequence': list(seq)}, f'parsing the databases {list(seq)} in one process failed: {err}')
+            continue
+        for pos, (i, dg) in enumerate(zip(seq, data)):
+            if dg != alone.get(i):
+                chk.violation({'kind': 'history_changes_result', 'position': pos}, {'sequence': list(seq)},
+                              f'database #{i} parsed/printed/sliced after {list(seq[:pos])} in the same process gives {dg}, alone {alone.get(i)}')
     sp = specs(thorough)
     for out in par.pmap(db_chunk, par.chunks(sp, common.ncpu() * 4)):
         for k, v in out.items():
@@ -280,7 +351,7 @@ def main(argv=None) -> int:
         agg['shipped'] = agg.get('shipped', 0) + out['evals']
         for sig, d, what in out['viol']:
             chk.violation(sig, {'signature': sig, 'case': d}, what)
-    chk.set('evaluations', agg.get('databases', 0) + agg.get('slices', 0) + agg.get('shipped', 0))
+    chk.set('evaluations', agg.get('databases', 0) + agg.get('slices', 0) + agg.get('shipped', 0) + agg.get('history_runs', 0))
     chk.set('distinct_nontrivial', agg.get('databases', 0) + agg.get('slices', 0))
     chk.set('rule', 'every database of the construction grammar (float order x notation x lemma subset x goal variant that the subset '
                     'supports) and every slice the pipeline produces for it; all are distinct; all are non-trivial (each carries >= 1 compressed proof)')
